@@ -428,6 +428,10 @@ pub async fn apply_fully_buffered_changes_loop(
                 error!(%actor_id, %version, "could not apply fully buffered changes: {e}");
             }
         }
+        #[cfg(feature = "verif-hooks")]
+        klukai_types::verif::event("apply_loop.done", || {
+            format!("{} {actor_id} {version}", agent.actor_id())
+        });
     }
 
     info!("fully_buffered_changes_loop ended");
